@@ -85,6 +85,22 @@ CHECKS = {
         technique='TLA+ scanner specification (termination / verdict in {ok, err} for every abstract input, MC_C13) model-checked with TLC; all model inputs plus seeded token-level mutations and stress inputs expanded by the real macro entry point in a guarded child; outcomes validated by TLC against TraceX.tla; candidates confirmed through the real compiler',
         text='The scanner specification terminates with ok/err on every abstract input including every value kind at every parameter; the harness runs all of them, the structural negatives, seeded token mutations and depth/length stress inputs through the real entry point under catch_unwind with a timeout and a 64 MB stack; anything other than items or a diagnostic is a candidate that is confirmed with the real compiler (proc-macro panicked) before it is reported.',
         design_ref='DESIGN.md section 6 (C17)', note=TB_X),
+    'C11': dict(
+        technique='TLA+ spec (EduceBounds.Delegated/Supers/Applies, MC_C11) model-checked with TLC; TLC-enumerated generic corpus compiled with the real derive; '
+                  'compile-time applicability probes (does the impl apply to Type<Args>?) validated by TLC against TraceB.tla',
+        text='The specification defines, per trait, the delegated fields and required supertraits and a small model of trait resolution for the field type classes; TLC checks '
+             'that unused parameters never influence applicability, that companions agree with their primary and that all-implementing arguments always apply. Every reachable '
+             'generic configuration is compiled and, for every educed trait and every assignment of implementing / non-implementing argument types, the real compiler\'s answer '
+             'must equal Applies.',
+        design_ref='DESIGN.md section 6 (C11)', note=TB_R),
+    'C12': dict(
+        technique='TLA+ spec (EduceBounds.WhereSet/ImplParams/EmittedTraits, MC_C12) model-checked with TLC; TLC-enumerated inputs expanded by the real macro entry point; '
+                  'every impl item (generic parameters, where-predicates) and the item list validated by TLC against TraceB.tla',
+        text='The specification states, for each bound mode (auto, bool, *, custom, disabled; per Into target), exactly which predicates an impl\'s where-clause consists of next '
+             'to the user\'s own, and that the impl header repeats the type\'s parameters minus defaults; TLC checks the modes against their definitions and that companions share '
+             'the primary\'s set. Every configuration (two generics descriptors incl. lifetime / bounded+defaulted / const parameters and a user where-clause) is expanded and every '
+             'impl item must carry exactly those parameters and predicates, and the item list must be exactly the educed traits and requested Into targets.',
+        design_ref='DESIGN.md section 6 (C12)', note=TB_X),
 }
 
 NOT_YET = 'check not built yet (work in progress, see DESIGN.md section 11)'
